@@ -21,7 +21,9 @@ def replay_case(prop, case):
         spec = env.spec_by_name(case["cls"])
         pr, _n, _d = hist.replay(spec, case["history"], case.get("nobj", 2), rnd=None,
                                  missing_init=case.get("missing_init", False),
-                                 write_concern=case.get("write_concern", False))
+                                 write_concern=case.get("write_concern", False), buffered=bool(case.get("buffered")),
+                                 inner_exit=case.get("inner_exit"),
+                                 want=("ret", "raw") if case.get("buffered") else ("ret", "raw", "nowrite", "family"))
         return _verdict(prop, pr)
     if "inputs" in case and "scen" in case:
         from . import bufrun, chk_buf, common
